@@ -931,9 +931,40 @@ func init() {
 				u("marker-str", d+",if", "0000", "")
 				u("marker", d+",fi", "0100", "event")
 			}
+			// stack slots beyond the int8 range, read by if / and / or jumps at the deepest point
+			deep := []string{"127", "128", "129", "256"}
+			if tier == "thorough" {
+				deep = []string{"126", "127", "128", "129", "130", "255", "256", "257", "600"}
+			}
+			for _, d := range deep {
+				for _, b := range []string{"if", "ifand", "and", "or"} {
+					u("deep", d+","+b, "0000", "")
+					u("deep", d+","+b, "1111", "")
+				}
+				u("deep", d+",ifand", "0010", "event")
+			}
+			// the operand-count limit applies wherever the operator sits, also below an if
+			for _, n := range []string{"127", "128", "129", "200", "255", "256", "300"} {
+				for _, p := range []string{"then", "else", "cond", "nested"} {
+					u("operands-if", n+","+p, "0000", "")
+					u("operands-if", n+","+p, "1111", "")
+				}
+			}
+			for _, ab := range []string{"63,64", "64,64", "100,100", "127,127"} {
+				for _, o := range []string{"0000", "0100", "1111"} {
+					u("flatten-if", ab, o, "")
+				}
+			}
 			for _, n := range []string{"16382", "16383", "16384", "16385"} {
 				u("nodes", n, "0000", "event")
 			}
+			// event mode over programs made of two-leaf operators, with and without FastEvaluation
+			for _, o := range []string{"0000", "1101", "0010", "1111"} {
+				u("nodes-pairs", "16383", o, "event")
+				u("nodes-pairs", "18061", o, "event")
+			}
+			u("nodes-pairs", "16384", "0000", "debug")
+			u("nodes-pairs", "25000", "1101", "both")
 			u("nodes", "16383", "0000", "both")
 			u("nodes", "16384", "0000", "both")
 			u("stack", "9", "0000", "both")
@@ -957,7 +988,7 @@ func init() {
 		Reach: []string{"accepted", "rejected"},
 		Bounds: func(tier string) map[string]interface{} {
 			return map[string]interface{}{"operand_counts": "2,126,127,128,129,200 flat; (63,64) (64,64) (64,65) (127,1) (127,2) (126,1) (2,125) (2,126) through flattening with ReduceNesting on and off",
-				"node_counts": "16382..16385 with ReportEvent/Debug, 32767/32768 plain (32765..32769 in all modes thorough)", "stack_depths": "6,7,8,9,14,15,16,17,40 with and without fast operators and events; depths 7,8,9,16,17 again with a variable named fi and with the string literals \"fi\" / \"if\" as leaves",
+				"node_counts": "16382..16385 with ReportEvent/Debug, 32767/32768 plain (32765..32769 in all modes thorough)", "stack_depths": "6,7,8,9,14,15,16,17,40 with and without fast operators and events; 127,128,129,256 (thorough 126..130, 255..257, 600) with an if / and / or at the deepest point; operators with 127..300 operands in every position of an if; event-mode programs of 16383 / 16384 / 18061 / 25000 nodes built from two-leaf operators with FastEvaluation on and off; depths 7,8,9,16,17 again with a variable named fi and with the string literals \"fi\" / \"if\" as leaves",
 				"data": "the variable's value is an arbitrary int64 (solver variable); the reference is the same wrapping fold"}
 		},
 		Rule:        "one unit per (kind, size, options, event mode); sizes are structural and enumerated at and around each limit; the narrowing monitor checks every Convert to a narrower integer and every int8/int16 +,-,* executed in the package",
